@@ -43,6 +43,12 @@ Theorem c07_int_canonical : forall z bs, (- 2^63 <= z < 2^63)%Z -> shortest bs -
 Proof. exact BerInt.c07_int_canonical. Qed.
 
 
+(* known finding F36: the nesting hypothesis above is where C07 stops on this code - 102 nested SEQUENCEs are written and not read back *)
+Theorem c07_refuted_F36 : let t := nest 101 in ids_ok t /\ small t /\ tdepth t = 102%nat /\
+  parse_tag' (lim true 100) 0 (S (length (encode t))) (encode t) = PErr /\
+  parse_tag' (lim true 100) 0 (S (length (encode (nest 100)))) (encode (nest 100)) = POk (nest 100, []).
+Proof. exact BerFixed.c07_refuted_F36. Qed.
+
 Print Assumptions c07_any_encoding_parses.
 Print Assumptions c07_encode_is_encoding.
 Print Assumptions c07_roundtrip.
@@ -50,3 +56,4 @@ Print Assumptions c07_length_minimal.
 Print Assumptions c07_int_shortest.
 Print Assumptions c07_bool_octet.
 Print Assumptions c07_int_canonical.
+Print Assumptions c07_refuted_F36.
